@@ -4,7 +4,7 @@ import z3
 
 HOSTILE = ["", "a", "ab", "abc", "b", "ba", "\n", "a\n", "a\nb", "\r\n", "\t", "\\t", "\\n", "\\", '"', 'a"b', ".", "a.c", "[", "]", "^", "$",
            "*", "+", "?", "(", ")", "{", "}", "|", "-", "0", "7", "12", "007", "42", "é", "ß", "€", "\U0001F600", "\x00", " ", "aa",
-           "a" * 40, "x y", "'", "<", ">", "<a>", "a-c", "\x7f", "\xff"]
+           "a" * 40, "x y", "  ", "a  b", "   c", "\t\t", "'", "<", ">", "<a>", "a-c", "\x7f", "\xff"]
 PLAIN = ["", "a", "ab", "abc", "b", "ba", "0", "7", "12", "007", "42", "aa", "x y", "abab", "c"]
 NUMERALS = ["0", "7", "12", "007", "42", "100", "9"]
 SIGNED = ["-5", "+3", "-0", "-12"]
